@@ -6,7 +6,7 @@ struct opinfo {
   const char *type;   // C type of the atomic object
   const char *opname; // "add", "cas_s", ...
   int objsize;        // bytes of object state
-  int storage;        // 0 ptr, 1 member via pointer, 2 global, 3 global struct member, 4 global array element, 5 algorithm, 6 nested member, 7 automatic (owner function)
+  int storage;        // 0 ptr, 1 member via pointer, 2 global, 3 global struct member, 4 global array element, 5 algorithm, 6 nested member, 7 automatic (owner function), 8 thread-local, 9 member of a thread-local struct
   int cls;            // 0 compound 1 incdec 2 fetch 3 xchg 4 cas 5 load 6 store 7 flag 8 algo
   int usesb;          // *b is an in/out "expected" value
   opfn fn[2];         // emitted by the chibicc under test: default build, -fPIC build
